@@ -3162,7 +3162,9 @@ func (s *swamp) buildBeacon(beaconASC beacon.Beacon, beaconDESC beacon.Beacon, b
 
 	if !beaconASC.IsInitialized() {
 		beaconASC.SetInitialized(true)
-		beaconASC.PushManyFromMap(s.treasuresForBeacon(bc))
+		pushedASC := s.treasuresForBeacon(bc)
+		beaconASC.PushManyFromMap(pushedASC)
+		defer s.dropDeletedFromBeacon(beaconASC, pushedASC)
 		var err error
 		switch bc {
 		case BeaconTypeCreationTime:
@@ -3206,7 +3208,9 @@ func (s *swamp) buildBeacon(beaconASC beacon.Beacon, beaconDESC beacon.Beacon, b
 
 	if !beaconDESC.IsInitialized() {
 		beaconDESC.SetInitialized(true)
-		beaconDESC.PushManyFromMap(s.treasuresForBeacon(bc))
+		pushedDESC := s.treasuresForBeacon(bc)
+		beaconDESC.PushManyFromMap(pushedDESC)
+		defer s.dropDeletedFromBeacon(beaconDESC, pushedDESC)
 		var err error
 		switch bc {
 		case BeaconTypeCreationTime:
@@ -3248,6 +3252,17 @@ func (s *swamp) buildBeacon(beaconASC beacon.Beacon, beaconDESC beacon.Beacon, b
 		}
 	}
 
+}
+
+// dropDeletedFromBeacon removes from a freshly built index the records that were deleted from
+// the swamp while the build was working on its snapshot: a delete that ran in that window found
+// the index still empty, so nobody else will ever remove the stale entry.
+func (s *swamp) dropDeletedFromBeacon(b beacon.Beacon, pushed map[string]treasure.Treasure) {
+	for key, t := range pushed {
+		if s.beaconKey.Get(key) != t {
+			b.Delete(key)
+		}
+	}
 }
 
 func (s *swamp) addToKeyBeacon(treasureInterface treasure.Treasure) {
